@@ -64,8 +64,14 @@ func writeOverlayJSON(verifDir string, ov map[string]string) (string, error) {
 		fmt.Fprintf(&sb, "%q:%q", k, v)
 	}
 	sb.WriteString("}}")
-	p := filepath.Join(scratchDir(verifDir), "out", "overlay.json")
-	return p, os.WriteFile(p, []byte(sb.String()), 0o644)
+	// one file per process: harnesses of one check run in parallel processes and a shared
+	// file could be read while another process is rewriting it
+	p := filepath.Join(scratchDir(verifDir), "out", fmt.Sprintf("overlay-%d.json", os.Getpid()))
+	tmp := p + ".tmp"
+	if err := os.WriteFile(tmp, []byte(sb.String()), 0o644); err != nil {
+		return p, err
+	}
+	return p, os.Rename(tmp, p)
 }
 
 func loadProgram(verifDir string) (*ssa.Program, map[string]*ssa.Package, error) {
